@@ -2,7 +2,8 @@
    combinations of base secret keys and of hash points) that the Go engine realises with real
    herumi / ed25519 objects and runs through core/encryption; the model evaluates the same
    descriptions over Z_r (r = BN254 group order) and must predict every verification result. *)
-From ZC Require Import Base.Corr Model.SigAlg.
+From ZC Require Import Base.Corr Model.SigAlg Model.HashEnc.
+From Coq Require Import String.
 Open Scope Z_scope.
 
 Definition sc_eqb (a b : Z) : bool := Z.eqb (a mod sx_r) (b mod sx_r).
@@ -22,7 +23,9 @@ Record sc_item := { sci_key : sx_scalar; sci_msg : nat; sci_sig : sx_point }.
 Inductive sc_case :=
 | ScBls (n : nat) (key : sx_scalar) (msg : nat) (sig : sx_point) (ok : bool)
 | ScEd (signer verifier : nat) (msg_signed msg_verified : nat) (tamper : nat) (ok : bool)
-| ScAgg (n bs : nat) (items : list sc_item) (indiv : list bool) (agg : nat).
+| ScAgg (n bs : nat) (items : list sc_item) (indiv : list bool) (agg : nat)
+(* an acceptor of (public key, client id) pairs given the id spelling and the canonical hash of the key *)
+| ScId (id canonical : string) (accepted : bool).
 
 Definition sc_to_item (it : sc_item) : ag_item Z :=
   {| ai_key := sc_scalar (sci_key it); ai_msg := sci_msg it; ai_sig := sc_point (sci_sig it) |}.
@@ -48,4 +51,5 @@ Definition sc_check (c : sc_case) : bool :=
       let its := map sc_to_item items in
       list_eqb Bool.eqb (map (ag_item_valid Z 0 1 sc_mul sc_eqb n) its) indiv
       && Nat.eqb (sc_verdict_code (ag_run Z 0 1 sc_add sc_mul sc_eqb n bs its)) agg
+  | ScId id canonical accepted => Bool.eqb (cl_accepts_id id canonical) accepted
   end.
